@@ -41,6 +41,17 @@ def _case(job):
     lib = rtc.load_lib()
     from vf.conc import Conc
     S = Conc(lib)
+    global _WARM
+    try: _WARM
+    except NameError:
+        # history: each worker first runs hard pairs (no small fix exists) through every mode, as an application would have;
+        # the property must hold regardless of what was asked before
+        _WARM = True
+        for t0, b0 in (((0xAB, 0xCD, 0xEF), (0xFE, 0xDC, 0xBA)), ((255, 255, 0), (255, 255, 255)), ((120, 120, 120), (128, 128, 128)), ((200, 30, 30), (190, 60, 60))):
+            for m in (2, 1, 0, 2):
+                for vr in (False, True):
+                    try: lib.ColorPair(t0, b0, False).make_readable(m, vr)
+                    except Exception: pass
     for mode in (0, 1, 2):
         col, ok = lib.ColorPair(text, bg, large).make_readable(mode, very)
         d = S.denotes(col)
